@@ -214,6 +214,16 @@ func main() {
 			if len(l.blind) == 0 {
 				l.blind = []int{rng.Intn(n)}
 			}
+			if j == 2 { // a blind attribute on the LAST base of the key (6 bases: secret + 5 attributes, one taken by the witness value)
+				n = 5
+				if c.Cfg.Wit {
+					n = 4
+				}
+				l = layout{n: n, blind: []int{n - 1}}
+				for i := 0; i < n; i++ {
+					l.sizes = append(l.sizes, rng.Intn(5))
+				}
+			}
 			if j == 1 { // every index blind
 				l.blind = nil
 				for i := 0; i < n; i++ {
@@ -369,6 +379,10 @@ func runCase(kp hx.KeyPair, acc *revocation.Accumulator, sacc *revocation.Signed
 		}
 		// ---- user
 		cred, err = A.cb.ConstructCredential(ism, A.attrs)
+		if err != nil && cred != nil {
+			outcome = "cred-with-error" // "no credential is produced" when the recipient rejects
+			return
+		}
 		if err != nil || cred == nil {
 			outcome = "user-reject"
 			return
@@ -376,6 +390,10 @@ func runCase(kp hx.KeyPair, acc *revocation.Accumulator, sacc *revocation.Signed
 		outcome = "cred"
 	})
 	res.Count(fmt.Sprintf("%s/%s:code=%s:spec=%s", f.Msg, f.Kind, outcome, c.Outcome))
+	if outcome == "cred-with-error" {
+		res.Violation("credential-from-tampered-run", fmt.Sprintf("ConstructCredential returned an error AND a credential (%s %s %s)", f.Msg, f.Field, f.Kind), det)
+		return
+	}
 	if panicked {
 		res.Violation("issuance-panic", fmt.Sprintf("issuance panicked instead of rejecting (%s %s %s): %s", f.Msg, f.Field, f.Kind, msg), det)
 		return
